@@ -89,6 +89,7 @@ func hashOf(v interface{}) string {
 // signedTx builds a signed transaction for the abstract event (signer = ev.Creator).
 func (r *Replica) signedTx(ctx sdk.Context, e *Event) ([]byte, error) {
 	e.Normalize()
+	r.Ctx = ctx // the concretiser may look at the current state (sid documents)
 	msg := r.Msg(e)
 	if msg == nil {
 		return nil, fmt.Errorf("no message for %s", e.Kind)
@@ -179,7 +180,8 @@ func (r *Replica) Simulate(e Event) string {
 // ProjectCommitted projects the committed state (a query context at the last height).
 func (r *Replica) ProjectCommitted() State {
 	h := r.App.LastBlockHeight()
-	r.Ctx = r.App.BaseApp.NewContext(true, tmproto.Header{ChainID: ChainID, Height: h})
+	// before the first commit the genesis state only exists in the deliver state
+	r.Ctx = r.App.BaseApp.NewContext(h > 0, tmproto.Header{ChainID: ChainID, Height: h})
 	r.H = h
 	st := r.Project()
 	st.Seed = 0
